@@ -1359,6 +1359,254 @@ void caseCopy(vrt::Case& c)
   vrt::cover(ckey);
   auditCount(a0);
 }
+
+// ------------------------------------------------------------------ group rename: the object is re-configured between two uses
+// The namespace of the parameters is changed (setNamespace) at every stage of a history: before the first call of the
+// setter, between two calls, before / after a copy, clone or assignment; every clause of the statement is judged again after
+// each stage with the namespace the object has *now* (the statement holds for every configuration of the object, and the
+// namespace is documented as a mere prefix of the parameter names).
+const char* NS_REL[] = { "empty", "dotted", "extends-old", "prefix-of-old", "same", "no-separator", "parameter-like" };
+const size_t NNSREL = sizeof(NS_REL) / sizeof(NS_REL[0]);
+
+string newNamespace(vrt::Rng& r, const string& cur, size_t rel)
+{
+  switch (rel)
+  {
+  case 0: return cur.empty() ? string("N.") : string(); // to (or, when already there, from) the empty namespace
+  case 1:
+  {
+    static const char* d[] = { "second.", "a.b.c.", "hmm.2.Simplex.", "Simplex." };
+    string n = d[r.below(4)];
+    return n == cur ? string("third.") : n;
+  }
+  case 2:
+  {
+    static const char* e[] = { "B.", "1.", "Simplex.", "x" };
+    return cur + e[r.below(4)]; // the old namespace is a prefix of the new one
+  }
+  case 3: // the new namespace is a proper prefix of the old one
+    if (cur.size() >= 2) return cur.substr(0, 1 + r.below(cur.size() - 1));
+    return cur.size() == 1 ? string() : string("x");
+  case 4: return cur;
+  case 5:
+  {
+    static const char* f[] = { "ns", "X", "p_", "Simplex" };
+    string n = f[r.below(4)];
+    return n == cur ? string("q_") : n;
+  }
+  default:
+  {
+    static const char* h[] = { "theta", "theta1", "theta1.", "theta1theta" };
+    string n = h[r.below(4)];
+    return n == cur ? string("theta2") : n;
+  }
+  }
+}
+
+vector<string> namesOf(const Simplex& s) { return s.getParameters().getParameterNames(); }
+
+void caseRename(vrt::Case& c)
+{
+  vrt::installParameterAudit("audit.parameter");
+  vrt::u64 a0 = vrt::parameterAudits();
+  Cfg g = cfgFor(c, c.index);
+  const size_t block = static_cast<size_t>(c.index / NCOMBO);
+  const size_t pre = block % 3;                          // calls of the setter before the first change of namespace
+  const int copyKind = static_cast<int>((block / 3) % 5); // 0 none, 1 copy ctor, 2 clone, 3 assignment (same shape), 4 assignment (other shape)
+  static const char* CK[] = { "no-copy", "copy-ctor", "clone", "assign-same-shape", "assign-other-shape" };
+  const int copyPos = static_cast<int>(c.rng.below(3));
+  static const char* CP[] = { "copy-before-setNamespace", "copy-after-setNamespace", "copy-after-setNamespace+set" };
+  const bool ordered = c.rng.chance(0.3);
+  const bool fromVec = c.rng.chance(0.5);
+  const size_t rel0 = c.rng.below(NNSREL);
+
+  // plan of the history: F setFrequencies, R setNamespace, C copy (the copy becomes the working object), U parameter update
+  string plan(pre, 'F');
+  if (copyKind && copyPos == 0) plan += 'C';
+  plan += 'R';
+  if (copyKind && copyPos == 1) plan += 'C';
+  plan += 'F';
+  if (copyKind && copyPos == 2) plan += 'C';
+  if (c.rng.chance(0.5)) plan += 'U';
+  if ((copyKind && copyPos == 2) || c.rng.chance(0.5)) plan += "RF";
+  if (c.rng.chance(0.5)) plan += 'F';
+  if (c.rng.chance(0.3)) plan += "RU";
+
+  vector<double> init = genProb(c.rng, g.dim, c.rng.below(NPPAT));
+  if (ordered) init = valuesFrom(init);
+  const string ctorName = string(ordered ? "OrderedSimplex(" : "Simplex(") + (fromVec ? "vector" : "dim") + ")";
+  string hist = g.text() + (ordered ? "; OrderedSimplex(" : "; Simplex(") + (fromVec ? vrt::vecStr(init, 40) : string("dim")) + ")";
+  const string ckey = g.key() + ":rename:" + ctorName + ":pre" + str(pre) + ":" + CK[copyKind] + (copyKind ? string(":") + CP[copyPos] : string()) + ":" + NS_REL[rel0];
+  vrt::describe(g.key() + ":rename:" + ctorName + ":" + CK[copyKind], hist + " + plan " + plan + " (" + CK[copyKind] + (copyKind ? string(", ") + CP[copyPos] : string()) + ")");
+
+  unique_ptr<Simplex> s, src;
+  Cfg gsrc = g;
+  Snap srcSnap;
+  vector<string> srcNames;
+  vrt::Outcome o = vrt::capture([&] { s = build(g, ordered, fromVec ? &init : nullptr); });
+  if (!vrt::expect(o.returned() && s, "ctor.accepted", g.sig() + ":rename:" + ctorName, [&] { return hist + " => " + o.text(); })) return;
+  if (!checkState(*s, g, "rename:ctor", hist)) return;
+
+  // the vector the getter has to return now (none after a parameter update or a dimension constructor) and the clause it is judged by
+  bool haveGiven = fromVec;
+  vector<double> given = init;
+  const char* givenClause = ordered ? "ordered.roundtrip-ctor" : "roundtrip.ctor-returns-given";
+  bool recomputed = false; // has the object been notified since a constructor stored its vector
+  bool renamed = false, isCopy = false, judgedAfterRename = false;
+  size_t nRename = 0;
+
+  auto stage = [&] { return string(renamed ? "after-setNamespace" : "before-setNamespace") + (isCopy ? ":on-copy" : ""); };
+  // the getter still returns the vector that was given last
+  auto judgeGiven = [&](const string& suffix) {
+    if (!haveGiven) return;
+    OrderedSimplex* os = dynamic_cast<OrderedSimplex*>(s.get());
+    if (os) checkValuesReturned(*os, g, given, givenClause, "rename:" + stage() + suffix, hist);
+    else checkReturned(s->getFrequencies(), given, roundTripTol(g.method, given), givenClause, g.sig() + ":rename:" + stage() + suffix, hist, "roundtrip");
+  };
+  judgeGiven(":ctor");
+
+  for (size_t k = 0; k < plan.size() && vrt::violationsInCase() == 0; ++k)
+  {
+    const char op = plan[k];
+    OrderedSimplex* os = dynamic_cast<OrderedSimplex*>(s.get());
+    vector<double> tb = readTheta(*s);
+    string opn;
+    bool fires = false;
+    if (op == 'F')
+    {
+      vector<double> q = genProb(c.rng, g.dim, c.rng.below(NPPAT));
+      if (os) q = valuesFrom(q);
+      opn = "setFrequencies";
+      hist += " ; setFrequencies(" + vrt::vecStr(q, 40) + ")";
+      vrt::step("setFrequencies(" + vrt::vecStr(q, 40) + ")");
+      o = vrt::capture([&] { if (os) os->setFrequencies(q); else s->setFrequencies(q); });
+      if (!vrt::expect(o.returned(), "setFrequencies.accepted", g.sig() + ":" + stage(), [&] { return hist + " => " + o.text(); })) return;
+      if (!checkState(*s, g, "rename:" + opn + ":" + stage(), hist)) return;
+      haveGiven = true;
+      given = q;
+      givenClause = os ? "ordered.roundtrip" : "roundtrip.setFrequencies";
+      judgeGiven("");
+      if (!os) checkInverse(*s, g, q, "rename:" + stage(), hist);
+      if (renamed && vrt::violationsInCase() == 0 && !judgedAfterRename) { judgedAfterRename = true; vrt::cover(ckey); }
+    }
+    else if (op == 'R')
+    {
+      size_t rel = nRename == 0 ? rel0 : c.rng.below(NNSREL);
+      ++nRename;
+      string ns = newNamespace(c.rng, g.name, rel);
+      opn = "setNamespace";
+      hist += string(" ; setNamespace('") + ns + "' [" + NS_REL[rel] + "])";
+      vrt::step("setNamespace('" + ns + "')");
+      o = vrt::capture([&] { s->setNamespace(ns); });
+      // the statement does not speak of the outcome of the renaming itself: an exception ends the case unjudged
+      if (!o.returned()) { vrt::tally("rename-unjudged:setNamespace-raised:" + o.type); break; }
+      g.name = ns;
+      renamed = true;
+      vrt::expect(s->getNamespace() == ns, "param.names", g.sig() + ":rename:getNamespace", [&] { return hist + " => getNamespace() = '" + s->getNamespace() + "'"; });
+      if (!checkState(*s, g, "rename:" + opn + ":" + stage(), hist)) return;
+      judgeGiven(":kept");
+      vrt::tally(string("rename:relation:") + NS_REL[rel]);
+    }
+    else if (op == 'U')
+    {
+      if (g.dim < 2) continue;
+      vector<double> t = genTheta(c.rng, g.dim, c.rng.chance(0.5) ? 0 : c.rng.below(NTHETA));
+      size_t route = c.rng.below(NROUTES);
+      opn = string("full:") + ROUTES[route];
+      fires = !(route == 1 || route == 5);
+      hist += " ; all parameters " + vrt::vecStr(t, 40) + " via " + ROUTES[route];
+      vrt::step(opn);
+      o = applyTheta(*s, g, t, route, c.rng, hist, false);
+      if (!vrt::expect(o.returned(), "update.accepted", g.sig() + ":" + stage() + ":" + ROUTES[route], [&] { return hist + " => " + o.text(); })) return;
+      vrt::expect(readTheta(*s) == t, "update.parameters-hold-given", g.sig() + ":" + stage() + ":" + ROUTES[route], [&] { return hist + " => parameters " + vrt::vecStr(readTheta(*s), 40); });
+      haveGiven = false;
+      if (!checkState(*s, g, "rename:" + opn + ":" + stage(), hist)) return;
+    }
+    else
+    {
+      // copy / clone / assignment: the copy becomes the working object, the source is kept and watched
+      opn = CK[copyKind];
+      hist += string(" ; ") + opn;
+      vrt::step(opn);
+      Snap sa = snap(*s);
+      unique_ptr<Simplex> b;
+      o = vrt::capture([&] {
+          if (copyKind == 1) { if (os) b.reset(new OrderedSimplex(*os)); else b.reset(new Simplex(*s)); }
+          else if (copyKind == 2) b.reset(s->clone());
+          else
+          {
+            // the target of the assignment has a namespace and a history of its own (constructor, setter, renaming, setter)
+            Cfg h = g;
+            h.name = "other.";
+            if (copyKind == 4) { h.dim = g.dim == 4 ? 7 : 4; h.method = static_cast<unsigned short>(1 + g.method % 3); }
+            vector<double> q0 = genProb(c.rng, h.dim, c.rng.below(NPPAT)), q1 = genProb(c.rng, h.dim, c.rng.below(NPPAT)), q2 = genProb(c.rng, h.dim, c.rng.below(NPPAT));
+            if (os) { q0 = valuesFrom(q0); q1 = valuesFrom(q1); q2 = valuesFrom(q2); }
+            b = build(h, os != nullptr, &q0);
+            bool tr = c.rng.chance(0.5);
+            if (os)
+            {
+              OrderedSimplex& ob = static_cast<OrderedSimplex&>(*b);
+              ob.setFrequencies(q1);
+              if (tr) { ob.setNamespace("target."); ob.setFrequencies(q2); }
+              ob = *os;
+            }
+            else
+            {
+              b->setFrequencies(q1);
+              if (tr) { b->setNamespace("target."); b->setFrequencies(q2); }
+              *b = *s;
+            }
+          }
+        });
+      if (!vrt::expect(o.returned() && b, "copy.accepted", g.sig() + ":rename:" + opn, [&] { return hist + " => " + o.text(); })) return;
+      bool sliced = os && dynamic_cast<OrderedSimplex*>(b.get()) == nullptr; // clone() of an OrderedSimplex is a plain Simplex (see caseCopy)
+      if (sliced) vrt::tally("clone-of-ordered-is-plain-simplex");
+      if (!checkState(*b, g, "rename:" + opn + ":" + stage(), hist)) return;
+      Snap sb = snap(*b);
+      if (sliced) sb.v = sa.v;
+      vrt::expect(sb == sa, "copy.equal", g.sig() + ":rename:" + opn, [&] { return hist + " => copy holds " + sb.text() + " but the source holds " + sa.text(); });
+      src = std::move(s);
+      s = std::move(b);
+      gsrc = g;
+      srcSnap = snap(*src);
+      srcNames = namesOf(*src);
+      isCopy = true;
+      if (sliced) haveGiven = false; // the value vector is lost with the slicing; the next setter call gives a new vector
+      judgeGiven(":kept");
+    }
+    if (vrt::violationsInCase()) break;
+    // frequencies follow the parameters the object holds now
+    vector<double> tn = readTheta(*s);
+    if (fires || tn != tb) recomputed = true;
+    if (recomputed) checkForward(*s, g, "rename:" + opn, hist);
+    else checkConsistent(*s, g, "rename:" + opn, hist);
+    if (OrderedSimplex* os2 = dynamic_cast<OrderedSimplex*>(s.get())) checkValues(*os2, g, "rename:" + opn, hist);
+    // whatever happens to the copy (renaming included) leaves the source alone
+    if (src && op != 'C')
+      vrt::expect(snap(*src) == srcSnap && namesOf(*src) == srcNames, "copy.independent", g.sig() + ":rename:source-after-copy." + opn.substr(0, opn.find(':')),
+          [&] { return hist + " => the source changed from " + srcSnap.text() + " names " + vrt::vecStr(srcNames, 4) + " to " + snap(*src).text() + " names " + vrt::vecStr(namesOf(*src), 4); });
+  }
+
+  // the source of the copy goes on working under its own namespace, and does not disturb the copy
+  if (src && vrt::violationsInCase() == 0)
+  {
+    Snap before = snap(*s);
+    vector<string> namesBefore = namesOf(*s);
+    OrderedSimplex* os = dynamic_cast<OrderedSimplex*>(src.get());
+    vector<double> q = genProb(c.rng, g.dim, c.rng.below(NPPAT));
+    if (os) q = valuesFrom(q);
+    string h3 = hist + " ; source[" + gsrc.name + "].setFrequencies(" + vrt::vecStr(q, 40) + ")";
+    vrt::step("source.setFrequencies");
+    o = vrt::capture([&] { if (os) os->setFrequencies(q); else src->setFrequencies(q); });
+    if (vrt::expect(o.returned(), "setFrequencies.accepted", g.sig() + ":rename:source-of-copy", [&] { return h3 + " => " + o.text(); }) && checkState(*src, gsrc, "rename:source-of-copy", h3))
+    {
+      if (os) checkValuesReturned(*os, gsrc, q, "ordered.roundtrip", "rename:source-of-copy", h3);
+      else checkReturned(src->getFrequencies(), q, roundTripTol(g.method, q), "roundtrip.setFrequencies", g.sig() + ":rename:source-of-copy", h3, "roundtrip");
+      vrt::expect(snap(*s) == before && namesOf(*s) == namesBefore, "copy.independent", g.sig() + ":rename:copy-after-source.setFrequencies", [&] { return h3 + " => the copy changed from " + before.text() + " to " + snap(*s).text(); });
+    }
+  }
+  auditCount(a0);
+}
 } // namespace
 
 int main(int argc, char** argv)
@@ -1370,6 +1618,7 @@ int main(int argc, char** argv)
     { "ordered", C * 48, C * 48 * 30, caseOrdered, 600, false },
     { "history", C * 30, C * 30 * 40, caseHistory, 600, false },
     { "copy", C * 16, C * 16 * 30, caseCopy, 600, false },
+    { "rename", C * 15, C * 15 * 30, caseRename, 600, false },
   };
   vrt::Meta meta;
   meta.rule = "Case index -> (method 1..3, dimension, allowNull): every block of 120 consecutive indices enumerates methods x dimensions {1..17,31,32,33} x {open, closed constraint}; "
@@ -1377,7 +1626,9 @@ int main(int argc, char** argv)
       "alternating entries within 1e-9 of an end, extreme values down to the smallest normal double and up to 1-2^-53, 0.5, log-uniform) given through one of 6 update routes to an object "
       "built in one of 3 ways; roundtrip: a probability vector (entries >= 1e-9, 11 patterns: Dirichlet, uniform, 9 decades, tiny entries first / last / alternating / all but two, one dominant, "
       "ascending, descending, geometric) through the constructor or setFrequencies after 3 kinds of prior history; ordered: the same two families for OrderedSimplex plus an unsorted vector; "
-      "history: 2..8 random operations on one object; copy: copy constructor / clone / assignment / vector growth, then mutation of either side. A class key = (method, relation of the dimension "
+      "history: 2..8 random operations on one object; copy: copy constructor / clone / assignment / vector growth, then mutation of either side; rename: a history of setFrequencies / setNamespace / "
+      "copy / parameter updates in which the namespace changes (to / from the empty one, dotted, extending or truncating the old one, the same, without separator, parameter-like) after 0, 1 or 2 "
+      "calls of the setter, with a copy constructor / clone / assignment before or after the change, every clause judged after each stage under the namespace the object has then. A class key = (method, relation of the dimension "
       "to the powers of two {1, 2^k, 2^k+1, 2^k-1, other}, constraint, group, pattern, route): every key involves a real evaluation of a coding, none is trivial.";
   meta.assumptions = {
     "parameter values are normal doubles in (0,1): from the smallest normal double up to 1-2^-53 (denormal values are not generated)",
